@@ -5,21 +5,25 @@ import ast, os, sys
 HERE = os.path.dirname(os.path.dirname(os.path.abspath(__file__)))
 sys.path.insert(0, HERE)
 from optyx_sa.loader import Program
-from optyx_sa.normalise import func_digest
+from optyx_sa.normalise import func_digest, stmt_fingerprints
+import json
+stm = {}
 p = Program()
 rows = []
 for m in p.modules.values():
     tree = ast.parse(m.source)
     for n in tree.body:
         if isinstance(n, (ast.FunctionDef, ast.AsyncFunctionDef)):
-            rows.append((f"{m.name}:{n.name}", func_digest(n)))
+            rows.append((f"{m.name}:{n.name}", func_digest(n))); stm[f"{m.name}:{n.name}"] = stmt_fingerprints(n)
         elif isinstance(n, ast.ClassDef):
             for c in n.body:
                 if isinstance(c, (ast.FunctionDef, ast.AsyncFunctionDef)):
-                    rows.append((f"{m.name}:{n.name}.{c.name}", func_digest(c)))
+                    rows.append((f"{m.name}:{n.name}.{c.name}", func_digest(c))); stm[f"{m.name}:{n.name}.{c.name}"] = stmt_fingerprints(c)
 rows.sort()
 with open(os.path.join(HERE, "optyx_sa", "baseline_functions.txt"), "w") as fh:
     fh.write("# functions / methods of the tree on which the rule instances were confirmed by hand, with a digest of their syntax\n# tree.  normalise.py inlines only helpers NOT listed here and rewrites only functions whose digest differs.\n# Regenerate: tools/gen_baseline_functions.py\n")
     for q, d in rows:
         fh.write(f"{q}\t{d}\n")
 print(len(rows), "functions")
+with open(os.path.join(HERE, "optyx_sa", "baseline_stmts.json"), "w") as fh:
+    json.dump(stm, fh, indent=0, sort_keys=True)
